@@ -732,6 +732,11 @@ impl<'a> LiveEvents<'a> {
         Ok(())
     }
 
+    /// Take the pending I/O error, if any (used where `finish()` will not be called any more).
+    pub(crate) fn take_io_error(&self) -> Option<Error> {
+        self.io_error().err()
+    }
+
     #[cold]
     fn io_error(&self) -> Result<(), Error> {
         if let Some(error) = self.error.take() {
